@@ -182,6 +182,15 @@ def judge(ctx, case):
             # the value assigned to a mutable object, that object changed in place, then the value created afresh
             routes['kw-after-prop-target-mutated'] = lambda: (_mutated(_assign(mcls(n), name, pv)), cls(**{name: pv, 'length': n}))[1]
             routes['prop+len-after-prop-target-mutated'] = lambda: (_mutated(_assign(mcls(), f'{name}{n}', pv)), _assign(mcls(), f'{name}{n}', pv))[1]
+            # ... and a snapshot taken of that object BEFORE it is changed: still the value
+            routes['snapshot-of-prop-target-then-target-mutated'] = lambda: _snapshot_then_mutate(_assign(mcls(n), name, pv), Bits)
+            routes['snapshot-of-prop+len-target-then-target-mutated'] = lambda: _snapshot_then_mutate(_assign(mcls(), f'{name}{n}', pv), ConstBitStream)
+            routes['copy-of-prop+len-target-then-target-mutated'] = lambda: _snapshot_then_mutate(_assign(mcls(), f'{name}{n}', pv), lambda t: t.copy())
+            routes['snapshot-of-kw-object-then-object-mutated'] = lambda: _snapshot_then_mutate(mcls(**{name: pv, 'length': n}), Bits)
+            if isinstance(pv, str) and pv.isidentifier():
+                # a value that happens to be spelt like the name of an unrelated keyword argument is still a value
+                routes['pack-pos-value-spelt-like-a-keyword'] = lambda: pack(f'{name}:{n}, uint:k_', pv, 0, k_=2, **{pv: 3})[:nbits]
+                routes['pack-eq-kw-then-pos-value-spelt-like-it'] = lambda: pack(f'uint:3={pv}, {name}:{n}', pv, **{pv: 5})[3:]
             if fam in ('hex', 'oct', 'bin'):
                 routes['kw-no-length'] = lambda: cls(**{name: pv})
                 routes['kw-prefixed'] = lambda: cls(**{name: {'hex': '0x', 'oct': '0o', 'bin': '0b'}[fam] + pv})
@@ -256,6 +265,12 @@ def _mutated(o):
         o.invert()
     o.append('0b1')
     return o
+
+
+def _snapshot_then_mutate(t, snap):
+    b = snap(t)
+    _mutated(t)
+    return b
 
 
 def _assign(o, attr, v):
